@@ -280,7 +280,8 @@ CLAIMED = {
                 "every data-fidelity loss (l1/l2 amplitude/intensity) must vanish for every batch size, object "
                 "type (complex, pure_phase, potential) and object padding; at TLC-certified perturbations the loss "
                 "must be strictly larger. This decides the convention half of the property (patch index order and "
-                "wrap, fftshift, normalisation, propagator sign, mode sum) exactly.",
+                "wrap, fftshift, normalisation, propagator sign, mode sum) exactly."
+                " Supplementary and labelled as such (not model-decided): data from the fixture's independent float64 NumPy forward model on larger / non-square ROIs (8..28, incl. sizes where k/n*n does not come back to k in floating point), fractional positions, 1-3 modes, 1-4 slices, paddings; the loss at that truth must vanish to float32 precision. Histories: probe modes installed weakest-first, a second reconstruction object with another beam energy alive, a dataset object preprocessed before with other options.",
         "note": "NOT reached: fractional positions other than half pixels, odd / non-square ROIs, generic phases and probes, constant "
                 "descan (the exact sub-domain only). Trusted: TLC arithmetic, the fixture's geometry glue. Zero "
                 "tolerances reflect the library's eps=1e-9 under the square root.",
